@@ -19,6 +19,9 @@ Proof. reflexivity. Qed.
 Lemma fix_pinned : ST_PINNED_NEEDS_TLS = true.   (* a tlshosts file demands STARTTLS *)
 Proof. reflexivity. Qed.
 
+Section Sim.
+Variable tf : conn -> list (N * Z).
+
 (* ------------------------------------------------------------------ the relation *)
 Definition Inv (k : tcase) (s : st) (c : cst) : Prop :=
   s_xtls s = k_route k /\ s_rcert s = k_route k /\
@@ -32,8 +35,8 @@ Definition Inv (k : tcase) (s : st) (c : cst) : Prop :=
      end
    else s_ssl s = false).
 
-Definition Rel (k : tcase) (s : st) (c : cst) : Prop := steps k cst0 (s_tr s) = Some c /\ Inv k s c.
-Definition Tr (k : tcase) (s : st) : Prop := exists c, steps k cst0 (s_tr s) = Some c.
+Definition Rel (k : tcase) (s : st) (c : cst) : Prop := steps tf k cst0 (s_tr s) = Some c /\ Inv k s c.
+Definition Tr (k : tcase) (s : st) : Prop := exists c, steps tf k cst0 (s_tr s) = Some c.
 
 Definition ok_res {A} (k : tcase) (P : A -> st -> cst -> Prop) (r : res A) : Prop :=
   match r with
@@ -42,17 +45,17 @@ Definition ok_res {A} (k : tcase) (P : A -> st -> cst -> Prop) (r : res A) : Pro
   end.
 
 Lemma steps_app k tr1 : forall c tr2,
-  steps k c (tr1 ++ tr2) = match steps k c tr1 with Some c' => steps k c' tr2 | None => None end.
+  steps tf k c (tr1 ++ tr2) = match steps tf k c tr1 with Some c' => steps tf k c' tr2 | None => None end.
 Proof.
   induction tr1 as [|e tr1 IH]; intros c tr2; simpl; [reflexivity|].
-  destruct (step k c e); [apply IH|reflexivity].
+  destruct (step tf k c e); [apply IH|reflexivity].
 Qed.
 
 Lemma Rel_Tr k s c : Rel k s c -> Tr k s.
 Proof. intros [H _]. now exists c. Qed.
 
 Lemma Rel_log k s c e c' :
-  steps k cst0 (s_tr s) = Some c -> step k c e = Some c' -> Inv k s c' -> Rel k (log e s) c'.
+  steps tf k cst0 (s_tr s) = Some c -> step tf k c e = Some c' -> Inv k s c' -> Rel k (log e s) c'.
 Proof.
   intros Ht Hs Hi. split.
   - cbn [log s_tr]. rewrite steps_app, Ht. cbn [steps]. now rewrite Hs.
@@ -135,7 +138,7 @@ Proof.
   destruct (net_read2 {| inn := s_inn s; en := chan s |}) as [it r] eqn:En.
   destruct (net_read2_spec {| inn := s_inn s; en := chan s |} it r Hlen En) as (Hit & Hlen').
   unfold total in Hit. cbn [inn en] in Hit.
-  assert (Ht' : steps k cst0 (s_tr (upd_net s (inn r) (en r))) = Some c) by (rewrite upd_net_tr; exact Ht).
+  assert (Ht' : steps tf k cst0 (s_tr (upd_net s (inn r) (en r))) = Some c) by (rewrite upd_net_tr; exact Ht).
   assert (Hdie : Tr k (die (upd_net s (inn r) (en r)))) by (exists c; exact Ht').
   assert (Hstuck : Tr k (upd_net s (inn r) (en r))) by (exists c; exact Ht').
   destruct (x_ph c) as [| | |prev] eqn:Eph; [contradiction| | |].
@@ -174,7 +177,7 @@ Proof.
     (* what a step that consumes [j] looks like *)
     assert (Hgo : forall it0 j acc',
                s_inn s ++ rest (s_tls s) = j ++ inn r ++ rest (en r) ->
-               step k c (EvR true it0 lft) = Some (mkC (x_k c) (PTls lft) (x_vfy c) acc') ->
+               step tf k c (EvR true it0 lft) = Some (mkC (x_k c) (PTls lft) (x_vfy c) acc') ->
                subN (x_acc c) acc' ->
                (forall l, it0 = RLine l -> subN (line_ext l) acc') ->
                ok_res k (read_post c s) (Ret it0 (log (EvR true it0 lft) (upd_net s (inn r) (en r))))).
@@ -521,7 +524,7 @@ Lemma Rel_report k s c w : Rel k s c -> Rel k (report w s) c.
 Proof. intros H. exact H. Qed.
 
 Lemma Rel_log_gen k s s' c e c' :
-  s_tr s' = s_tr s ++ [e] -> steps k cst0 (s_tr s) = Some c -> step k c e = Some c' -> Inv k s' c' -> Rel k s' c'.
+  s_tr s' = s_tr s ++ [e] -> steps tf k cst0 (s_tr s) = Some c -> step tf k c e = Some c' -> Inv k s' c' -> Rel k s' c'.
 Proof.
   intros Htr Ht Hs Hi. split; [|exact Hi].
   rewrite Htr, steps_app, Ht. cbn [steps]. now rewrite Hs.
@@ -532,11 +535,11 @@ Proof. destruct p; simpl; intros H; try discriminate; reflexivity. Qed.
 
 Definition tls_post (c : cst) (cn : conn) (r : Z) (s' : st) (c' : cst) : Prop :=
   x_k c' = x_k c /\ s_sock s' = true /\
-  (r = 0%Z -> kind (x_ph c') = 3 /\ (need_verify cn = true -> x_vfy c' = true)).
+  (r = 0%Z -> kind (x_ph c') = 3 /\ (need_verify tf cn = true -> x_vfy c' = true)).
 
 Lemma tls_init_ok k cn s c :
   Rel k s c -> s_sock s = true -> x_ph c = PClear -> conn_of k (x_k c) = cn ->
-  ok_res k (tls_post c cn) (tls_init cn (own_tlsa cn) s).
+  ok_res k (tls_post c cn) (tls_init cn (tf cn) s).
 Proof.
   intros Hr Hsock Hph Hcn. pose proof LB as HLB. unfold tls_init.
   assert (Hfail : forall s' c' r, Rel k s' c' -> x_k c' = x_k c -> s_sock s' = true -> r <> 0%Z ->
@@ -553,7 +556,7 @@ Proof.
     cbn [step]. rewrite Hph. destruct Hr as [_ (_ & Hrc & _)]. rewrite Hrc.
     now rewrite Bool.eqb_reflx. }
   assert (Hs0 : s_sock s0 = true) by exact Hsock.
-  destruct (if Nat.eqb (count_usable (own_tlsa cn)) 0 then Some 0 else dane_add (own_tlsa cn) (count_usable (own_tlsa cn)))
+  destruct (if Nat.eqb (count_usable (tf cn)) 0 then Some 0 else dane_add (tf cn) (count_usable (tf cn)))
     as [usable|] eqn:Eu.
   2:{ apply (Hfail _ c); [apply Rel_report; exact Hr0|reflexivity|exact Hs0|discriminate]. }
   assert (Hr1 : Rel k (nwrite ST_CMD_STARTTLS s0) c).
@@ -578,7 +581,7 @@ Proof.
   rewrite Hxk, Hcn in Htls4.
   set (T := tls_stream cn) in *.
   set (sb := set_clr (s_inn s3) {| cur := []; future := c_post cn |} s3).
-  assert (Hstep : step k c2 (EvHs (length (s_inn s3)) (c_hs cn)) =
+  assert (Hstep : step tf k c2 (EvHs (length (s_inn s3)) (c_hs cn)) =
                   Some (mkC (x_k c2) (if N.eqb (c_hs cn) 0 then PTls (length T) else PFailed) false 0)).
   { cbn [step]. rewrite Hph2, Hp0. cbn [length Nat.eqb negb]. rewrite Hxk, Hcn. reflexivity. }
   destruct (N.eqb (c_hs cn) 0) eqn:Ehs; cbn [negb].
@@ -634,14 +637,14 @@ Qed.
 Definition iter_post (ok : bool) (s' : st) (c' : cst) : Prop :=
   if ok then s_sock s' = true /\ can_write c' else s_sock s' = false.
 
-Lemma own_tlsa_nil_no_verify cn : pinned cn = false -> length (own_tlsa cn) = 0 -> need_verify cn = false.
+Lemma own_tlsa_nil_no_verify cn : pinned cn = false -> length (tf cn) = 0 -> need_verify tf cn = false.
 Proof.
-  intros Hp Hl. unfold need_verify. rewrite Hp. destruct (own_tlsa cn); [reflexivity|discriminate].
+  intros Hp Hl. unfold need_verify. rewrite Hp. destruct (tf cn); [reflexivity|discriminate].
 Qed.
 
 Lemma conn_iter_ok k i cn s c :
   Rel k s c -> s_sock s = false -> i < length (k_conns k) -> conn_of k i = cn ->
-  ok_res k iter_post (conn_iter i cn (own_tlsa cn) s).
+  ok_res k iter_post (conn_iter i cn (tf cn) s).
 Proof.
   intros Hr Hsock Hi Hcn. unfold conn_iter.
   set (c0 := mkC i PClear false 0).
@@ -707,7 +710,7 @@ Proof.
     + apply (Rel_log k s5 c5 _ c5 Ht5); [|exact HI5].
       cbn [step]. rewrite Eph5, Hssl5. cbn [negb orb].
       rewrite Hxk5, Hxk4, Hxk3, Hcn.
-      destruct (need_verify cn) eqn:Env.
+      destruct (need_verify tf cn) eqn:Env.
       * rewrite Hvfy5, (Hvfy4 eq_refl). cbn [negb andb orb].
         unfold subN in Hext5. rewrite Hext5, N.eqb_refl. reflexivity.
       * cbn [andb orb]. unfold subN in Hext5. rewrite Hext5, N.eqb_refl. reflexivity.
@@ -715,7 +718,7 @@ Proof.
   - (* no STARTTLS *)
     destruct (s_xtls s3) eqn:Ext.
     { apply Hnext. now apply (quitmsg_ok k s3 c3). }
-    destruct (Nat.ltb 0 (length (own_tlsa cn))) eqn:Etl.
+    destruct (Nat.ltb 0 (length (tf cn))) eqn:Etl.
     { apply Hnext. now apply (quitmsg_ok k s3 c3). }
     rewrite fix_pinned. cbn [andb].
     destruct (pinned cn) eqn:Epin.
@@ -741,7 +744,7 @@ Proof.
 Qed.
 
 Lemma connect_mx_ok k :
-  (forall cn, In cn (k_conns k) -> own_tlsa cn = tlsa_eff (k_conns k)) ->
+  (forall cn, In cn (k_conns k) -> tf cn = tlsa_eff (k_conns k)) ->
   forall todo i s c, todo = skipn i (k_conns k) -> Rel k s c -> s_sock s = false ->
   ok_res k iter_post (connect_mx (k_conns k) i todo s).
 Proof.
@@ -772,6 +775,30 @@ Proof.
   destruct H as (c & Hr & _). exact (Rel_Tr _ _ _ Hr).
 Qed.
 
+Lemma Rel_init k : Rel k (init_st k) cst0.
+Proof.
+  split; [reflexivity|]. unfold Inv, init_st. cbn. repeat split. lia.
+Qed.
+
+Theorem run_Tr k : (forall cn, In cn (k_conns k) -> tf cn = tlsa_eff (k_conns k)) -> Tr k (final (run k)).
+Proof.
+  intros Hc. unfold final. apply (final_Tr k (fun _ _ _ => True)). unfold run.
+  eapply ok_bind.
+  - apply (connect_mx_ok k Hc (k_conns k) 0 (init_st k) cst0 eq_refl (Rel_init k) eq_refl).
+  - intros ok s c Hr Hp. destruct ok.
+    + destruct Hp as (Hs & Hw). apply (shutdown_clean_ok k _ c).
+      apply nwrite_ok; [exact Hr|exact Hs|now apply can_write_not_failed].
+    + apply (shutdown_abort_ok k _ c). apply Rel_report. exact Hr.
+Qed.
+
+Theorem model_spec_with k :
+  (forall cn, In cn (k_conns k) -> tf cn = tlsa_eff (k_conns k)) -> spec_ok_with tf k (trace k) = true.
+Proof.
+  intros Hc. destruct (run_Tr k Hc) as (c & H). unfold spec_ok_with, trace. now rewrite H.
+Qed.
+
+End Sim.
+
 Lemma tlsa_eqb_eq a : forall b, tlsa_eqb a b = true -> a = b.
 Proof.
   induction a as [|[u r] a IH]; intros [|[v q] b] H; simpl in H; try discriminate; [reflexivity|].
@@ -786,23 +813,10 @@ Proof.
   rewrite forallb_forall in H. apply tlsa_eqb_eq. now apply H.
 Qed.
 
-Lemma Rel_init k : Rel k (init_st k) cst0.
-Proof.
-  split; [reflexivity|]. unfold Inv, init_st. cbn. repeat split. lia.
-Qed.
+(** with the records connect_mx() really uses: no exception *)
+Theorem model_spec_eff k : spec_ok_with (fun _ => tlsa_eff (k_conns k)) k (trace k) = true.
+Proof. apply model_spec_with. reflexivity. Qed.
 
-Theorem run_Tr k : class_wrong_host k = false -> Tr k (final (run k)).
-Proof.
-  intros Hc. unfold final. apply (final_Tr k (fun _ _ _ => True)). unfold run.
-  eapply ok_bind.
-  - apply (connect_mx_ok k (class_complement k Hc) (k_conns k) 0 (init_st k) cst0 eq_refl (Rel_init k) eq_refl).
-  - intros ok s c Hr Hp. destruct ok.
-    + destruct Hp as (Hs & Hw). apply (shutdown_clean_ok k _ c).
-      apply nwrite_ok; [exact Hr|exact Hs|now apply can_write_not_failed].
-    + apply (shutdown_abort_ok k _ c). apply Rel_report. exact Hr.
-Qed.
-
+(** with the records of each host itself: outside the class of the known finding *)
 Theorem model_spec_ok k : class_wrong_host k = false -> spec_ok_C18 k (trace k) = true.
-Proof.
-  intros Hc. destruct (run_Tr k Hc) as (c & H). unfold spec_ok_C18, trace. now rewrite H.
-Qed.
+Proof. intros Hc. apply model_spec_with. now apply class_complement. Qed.
